@@ -83,6 +83,9 @@ def betaBinary1(therm : BinaryThermodynamics, x, T, Rcrit, matrix : MatrixParame
     indices = Rcrit != 0
 
     beta = np.zeros(Rcrit.shape)
+    #No critical radius anywhere (no positive driving force), so there is nothing to ask the thermodynamics for
+    if not np.any(indices):
+        return np.squeeze(beta)
     D = np.atleast_2d(therm.getTracerDiffusivity(x[indices], T[indices], removeCache=removeCache))
     beta[indices] = precipitate.nucleation.areaFactor * Rcrit[indices]**2 * x[indices] * D[:,1] / matrix.volume.a**4
     return np.squeeze(beta)
@@ -98,6 +101,10 @@ def betaBinary2(therm : BinaryThermodynamics, x, T, Rcrit, matrix : MatrixParame
     T = np.atleast_1d(T)
     Rcrit = np.atleast_1d(Rcrit)
     indices = Rcrit != 0
+
+    #No critical radius anywhere (no positive driving force), so there is nothing to ask the thermodynamics for
+    if not np.any(indices):
+        return np.squeeze(np.zeros(Rcrit.shape))
     
     if xEqAlpha is None:
         xEqAlpha, xEqBeta = therm.getInterfacialComposition(T[indices], np.zeros(T[indices].shape), precipitate.phase)
